@@ -692,6 +692,11 @@ func (vfs *MemFS) Remove(name string) error {
 	child.Lock()
 	defer child.Unlock()
 
+	if parent.restrictedDeletion(ownerOf(child), vfs.User()) {
+		// sticky bit : the entry belongs to another user.
+		return &fs.PathError{Op: op, Path: name, Err: vfs.err.OpNotPermitted}
+	}
+
 	if c, ok := child.(*dirNode); ok {
 		if len(c.children) != 0 {
 			return &fs.PathError{Op: op, Path: name, Err: vfs.err.DirNotEmpty}
@@ -743,6 +748,15 @@ func (vfs *MemFS) RemoveAll(path string) error {
 
 	if ok := parent.checkPermission(avfs.OpenWrite, vfs.User()); !ok {
 		return &fs.PathError{Op: op, Path: path, Err: vfs.err.PermDenied}
+	}
+
+	child.Lock()
+	uid := ownerOf(child)
+	child.Unlock()
+
+	if parent.restrictedDeletion(uid, vfs.User()) {
+		// sticky bit : the entry belongs to another user.
+		return &fs.PathError{Op: op, Path: path, Err: vfs.err.OpNotPermitted}
 	}
 
 	parent.removeChild(pi.Part())
@@ -809,6 +823,30 @@ func (vfs *MemFS) Rename(oldpath, newpath string) error {
 
 	if oPI.Path() == nPI.Path() {
 		return nil
+	}
+
+	// sticky bit : an entry of another user can be neither moved away nor replaced.
+	ownerUid := func(nd node) int {
+		switch nd {
+		case node(oParent):
+			// the parent directories are already locked.
+			return oParent.uid
+		case node(nParent):
+			return nParent.uid
+		}
+
+		nd.Lock()
+		defer nd.Unlock()
+
+		return ownerOf(nd)
+	}
+
+	if oParent.restrictedDeletion(ownerUid(oChild), vfs.User()) {
+		return &os.LinkError{Op: op, Old: oldpath, New: newpath, Err: vfs.err.OpNotPermitted}
+	}
+
+	if nChild != nil && nParent.restrictedDeletion(ownerUid(nChild), vfs.User()) {
+		return &os.LinkError{Op: op, Old: oldpath, New: newpath, Err: vfs.err.OpNotPermitted}
 	}
 
 	switch oChild.(type) {
